@@ -337,11 +337,8 @@ func (t *BoltTransport) cleanup(bucket *bolt.Bucket, lastID uint64) error {
 
 	removeUntil := lastID - t.size
 	c := bucket.Cursor()
-	for k, _ := c.First(); k != nil; k, _ = c.Next() {
-		if binary.BigEndian.Uint64(k[:8]) > removeUntil {
-			break
-		}
-
+	// Deleting a key invalidates the cursor position (the next key would be skipped), so seek the first key again after each deletion
+	for k, _ := c.First(); k != nil && binary.BigEndian.Uint64(k[:8]) <= removeUntil; k, _ = c.First() {
 		if err := bucket.Delete(k); err != nil {
 			return fmt.Errorf("unable to delete value in Bolt DB: %w", err)
 		}
